@@ -837,26 +837,34 @@ Qed.
 Definition fds (cs : list (option str)) : list str :=
   flat_map (fun o => match o with Some d => [d] | None => [] end) cs.
 
-(* what the handler provisions: per Application ID's PFDs IE, in order, the flow descriptions of the
-   FIRST PFD Context; [table_all] is what the request carries: those of all its PFD Contexts *)
-Fixpoint table_first (req : list app_ie) (t : table) : table :=
-  match req with
-  | [] => t
-  | a :: r =>
-    match a_id a, a_ctx a with
-    | Some id, Some c => table_first r (tbl_set id (fds c) t)
-    | _, _ => t
-    end
-  end.
-Fixpoint table_all (req : list app_ie) (t : table) : table :=
+(* the table a request carries: per Application ID's PFDs IE, in order (a later IE for the same id
+   wins), the flow descriptions of ALL its PFD Contexts, in order *)
+Definition ctx_children (c : option (list (option str))) : list (option str) :=
+  match c with Some l => l | None => [] end.
+Definition carried (a : app_ie) : list str := fds (List.concat (map ctx_children (a_ctxs a))).
+
+Fixpoint table_of (req : list app_ie) (t : table) : table :=
   match req with
   | [] => t
   | a :: r =>
     match a_id a with
-    | Some id => table_all r (tbl_set id (fds (List.concat (a_ctxs a))) t)
+    | Some id => table_of r (tbl_set id (carried a) t)
     | None => t
     end
   end.
+
+Lemma all_contents_some cs l : all_contents cs = Some l -> l = List.concat (map ctx_children cs).
+Proof.
+  revert l; induction cs as [|[c|] cs IH]; intros l H; cbn [all_contents] in H; [now injection H as <-| |discriminate].
+  destruct (all_contents cs) as [l'|]; [|discriminate]. injection H as <-. cbn [map List.concat ctx_children].
+  now rewrite (IH l' eq_refl).
+Qed.
+
+Lemma a_ctx_some a cs : a_ctx a = Some cs -> fds cs = carried a.
+Proof.
+  unfold a_ctx, carried. intros H. destruct (a_ctxs a) as [|c r] eqn:E; [discriminate|].
+  now rewrite (all_contents_some _ _ H).
+Qed.
 
 Lemma fill_ok cs acc ds : fill cs acc = FillOk ds -> ds = acc ++ fds cs.
 Proof.
@@ -882,23 +890,26 @@ Proof.
   destruct (fill cs []); [now apply IH in H|now injection H as <-|now injection H as <-].
 Qed.
 
-Lemma pfd_loop_accepted old : forall req new t, pfd_loop old new req = (t, true) -> t = table_first req new.
+Lemma pfd_loop_accepted old : forall req new t, pfd_loop old new req = (t, true) -> t = table_of req new.
 Proof.
-  induction req as [|a r IH]; intros new t H; cbn [pfd_loop table_first] in *; [now injection H as <-|].
+  induction req as [|a r IH]; intros new t H; cbn [pfd_loop table_of] in *; [now injection H as <-|].
   destruct (a_id a) as [id|]; [|discriminate].
-  destruct (a_ctx a) as [cs|]; [|discriminate].
+  destruct (a_ctx a) as [cs|] eqn:C; [|discriminate].
   destruct (fill cs []) as [ds| |] eqn:F; [|discriminate|discriminate].
-  apply fill_ok in F. cbn [app] in F. subst ds. rewrite tbl_set_set in H. now apply IH in H.
+  apply fill_ok in F. cbn [app] in F. subst ds. rewrite tbl_set_set in H.
+  rewrite (a_ctx_some a cs C) in H. now apply IH in H.
 Qed.
 
 Theorem pfd_rollback old req t : handle_pfd old req = (t, false) -> t = old.
 Proof. apply pfd_loop_rejected. Qed.
 
-Theorem pfd_replace old req t : handle_pfd old req = (t, true) -> t = table_first req [].
+(* accepted: the table afterwards is exactly the table the request carries - nothing of the previous
+   table survives, nothing of the request is lost *)
+Theorem pfd_replace old req t : handle_pfd old req = (t, true) -> t = table_of req [].
 Proof. apply pfd_loop_accepted. Qed.
 
-(* the decision: accepted exactly when every IE has an id, a PFD Context, and every child of the first
-   context decodes to a non-empty flow description *)
+(* the decision: accepted exactly when every IE has an id and at least one PFD Context, every context
+   is readable and every child of every context decodes to a non-empty flow description *)
 Definition child_ok (o : option str) : bool := match o with Some (_ :: _) => true | _ => false end.
 Definition app_ok (a : app_ie) : bool :=
   match a_id a, a_ctx a with Some _, Some cs => forallb child_ok cs | _, _ => false end.
@@ -928,37 +939,19 @@ Proof.
     cbn. split; discriminate.
 Qed.
 
-(* with one PFD Context per application, what is provisioned is what the request carries *)
-Definition single_ctx (a : app_ie) : Prop := (List.length (a_ctxs a) <= 1)%nat.
-
-Lemma table_first_all req : Forall single_ctx req -> forallb app_ok req = true ->
-  forall t, table_first req t = table_all req t.
-Proof.
-  induction 1 as [|a r Ha _ IH]; intros Hok t; [reflexivity|]. cbn [forallb] in Hok.
-  apply andb_true_iff in Hok as [Hok1 Hok2]. cbn [table_first table_all]. unfold app_ok, a_ctx in *.
-  unfold single_ctx in Ha. destruct (a_id a) as [id|]; [|discriminate].
-  destruct (a_ctxs a) as [|c [|c2 cs]]; [discriminate| |cbn in Ha; lia].
-  cbn [List.concat]. rewrite app_nil_r. now apply IH.
-Qed.
-
-Theorem pfd_replace_single old req t : Forall single_ctx req ->
-  handle_pfd old req = (t, true) -> t = table_all req [].
-Proof.
-  intros Hs H. pose proof (pfd_replace old req t H) as ->. apply table_first_all; [assumption|].
-  apply (pfd_accept_iff old req). now rewrite H.
-Qed.
-
-(* two PFD Contexts for one application: accepted, the second context's description is dropped *)
+(* two PFD Contexts for one application: both flow descriptions are provisioned, in order, and an
+   access PDR naming the application gets, verbatim, the 'out' description of the second context *)
 Definition req2 : list app_ie :=
-  [AppIE (Some (K "app1")) [[Some (K "permit in ip from any to assigned")];
-                            [Some (K "permit out udp from 1.2.3.4 80 to assigned")]]].
+  [AppIE (Some (K "app1")) [Some [Some (K "permit in ip from any to assigned")];
+                            Some [Some (K "permit out udp from 1.2.3.4 80 to assigned")]]].
 
-Theorem pfd_replace_refuted :
-  exists old req t, handle_pfd old req = (t, true) /\ t <> table_all req [].
-Proof. exists [], req2, (fst (handle_pfd [] req2)). split; [reflexivity|]. vm_compute. discriminate. Qed.
+Lemma pfd_two_contexts :
+  handle_pfd [] req2 = ([(K "app1", [K "permit in ip from any to assigned"; K "permit out udp from 1.2.3.4 80 to assigned"])], true)
+  /\ parse_pdr Access 167772161 (fst (handle_pfd [] req2)) [IApp (Some (K "app1"))] =
+     Accepted (AF 16909060 167772161 (PR 80 80) (PR 0 65535) 17 4294967295 4294967295 255).
+Proof. split; vm_compute; reflexivity. Qed.
 
-(* ... and an access PDR naming the application then matches on the UE address only *)
-Lemma pfd_second_context_lost :
-  parse_pdr Access 167772161 (fst (handle_pfd [] req2)) [IApp (Some (K "app1"))] = Accepted (prefill Access 167772161)
-  /\ parse_pdr Access 167772161 (table_all req2 []) [IApp (Some (K "app1"))] <> Accepted (prefill Access 167772161).
-Proof. split; [vm_compute; reflexivity|vm_compute; discriminate]. Qed.
+(* an unreadable later PFD Context: rejected, previous table kept *)
+Lemma pfd_unreadable_context old :
+  handle_pfd old [AppIE (Some (K "app1")) [Some [Some (K "permit in ip from any to assigned")]; None]] = (old, false).
+Proof. reflexivity. Qed.
